@@ -3,6 +3,11 @@ From XcpProofs Require Import ConcBlockProofs.
 From Coq Require Import Arith PeanoNat Lia.
 Local Open Scope nat_scope.
 
+Lemma len_drop_nth {A} (l : list A) k : k < length l -> S (length (firstn k l ++ skipn (S k) l)) = length l.
+Proof. intros Hk. rewrite app_length, firstn_length, skipn_length. lia. Qed.
+Lemma len_set_nth {A} (l : list A) k x : k < length l -> length (firstn k l ++ x :: skipn (S k) l) = length l.
+Proof. intros Hk. rewrite app_length, firstn_length. cbn [length]. rewrite skipn_length. lia. Qed.
+
 (* the number of open handles is the number of busy workers: at most W *)
 Theorem parfile_open_bound W ops s : freachable W ops s -> length (f_run s) <= W.
 Proof.
@@ -12,15 +17,14 @@ Proof.
   - destruct todo; [destruct wdone; [discriminate|]|]; injection Hs as <-; exact IH.
   - destruct fq as [|[h [js|]] r]; [discriminate| |];
       destruct (Nat.ltb_spec (length run) W); try discriminate; injection Hs as <-; cbn [f_run length]; lia.
-  - destruct (nth_error run k) as [[h [|b rest]]|] eqn:En; [| |discriminate]; injection Hs as <-; unfold f_run.
-    + assert (k < length run) as Hk by (apply nth_error_Some; congruence).
-      rewrite app_length, firstn_length. cbn [length]. rewrite ?skipn_length. lia.
-    + assert (k < length run) as Hk by (apply nth_error_Some; congruence).
-      rewrite app_length, firstn_length. cbn [length]. rewrite ?skipn_length. lia.
+  - destruct (nth_error run k) as [[h [|b rest]]|] eqn:En; [| |discriminate]; injection Hs as <-;
+      assert (k < length run) as Hk by (apply nth_error_Some; congruence).
+    + pose proof (len_drop_nth run k Hk) as Hl. change (length (firstn k run ++ skipn (S k) run) <= W). lia.
+    + pose proof (len_set_nth run k (h, rest) Hk) as Hl. change (length (firstn k run ++ (h, rest) :: skipn (S k) run) <= W). lia.
 Qed.
 
 (* no deadlock: in every non-final state some thread can move *)
-Theorem parfile_no_deadlock W s : 1 <= W -> length (f_run s) <= W -> ffinal W s = false ->
+Theorem parfile_no_deadlock W s : 1 <= W -> length (f_run s) <= W -> ffinal s = false ->
   exists l s', fstep W s l = Some s'.
 Proof.
   intros HW Hrun Hf. destruct s as [todo next wdone fq run ev]. unfold ffinal in Hf.
@@ -48,6 +52,11 @@ Lemma fold_run_mid (a b : list (nat * list nat)) x :
   fold_right (fun hj acc => 1 + length (snd hj) + acc) 0 (a ++ b) + 1 + length (snd x).
 Proof. induction a as [|y a IH]; cbn [app fold_right]; [lia|]. rewrite IH. lia. Qed.
 
+Lemma fold_ffq_app l x :
+  fold_right (fun (ho : nat * bop) a => fop_cost (snd ho) + a) 0 (l ++ [x]) =
+  fold_right (fun (ho : nat * bop) a => fop_cost (snd ho) + a) 0 l + fop_cost (snd x).
+Proof. induction l as [|y l IH]; cbn [app fold_right]; [lia|]. rewrite IH. lia. Qed.
+
 (* every enabled step does exactly one unit of work: executions are bounded *)
 Theorem fstep_measure W s l s' : fstep W s l = Some s' -> S (fmeasure s') = fmeasure s.
 Proof.
@@ -55,9 +64,12 @@ Proof.
   destruct l as [| |k].
   - destruct todo as [|o r].
     + destruct wdone; [discriminate|]. intros H. injection H as <-. cbn. lia.
-    + intros H. injection H as <-. cbn [f_todo f_wdone f_fq f_run fold_right]. rewrite fold_fq_app. cbn [snd]. lia.
+    + intros H. injection H as <-. cbn [f_todo f_wdone f_fq f_run fold_right]. rewrite fold_ffq_app. cbn [snd]. lia.
   - destruct fq as [|[h [js|]] r]; [discriminate| |]; destruct (length run <? W); try discriminate;
-      intros H; injection H as <-; cbn [f_todo f_wdone f_fq f_run fold_right snd op_cost]; lia.
+      intros H; injection H as <-; cbn [f_todo f_wdone f_fq f_run fold_right snd fop_cost length]; lia.
   - destruct (nth_error run k) as [[h [|b rest]]|] eqn:En; [| |discriminate]; intros H; injection H as <-;
-      cbn [f_todo f_wdone f_fq f_run]; rewrite (fold_run_split run k _ _ En); rewrite ?fold_run_mid; cbn [snd length]; lia.
+      cbn [f_todo f_wdone f_fq f_run];
+      change (match run with [] => [] | _ :: l => skipn k l end) with (skipn (S k) run);
+      pose proof (fold_run_split run k _ _ En) as E1;
+      pose proof (fun x => fold_run_mid (firstn k run) (skipn (S k) run) (h, x)) as E2; try specialize (E2 rest); cbn [snd length] in *; lia.
 Qed.
